@@ -347,7 +347,7 @@ def parseAnsList (s : String) (f : String → Option α) : Option (List α) :=
   if s == "-" then some [] else (s.splitOn ",").mapM f
 
 def parseRd (s : String) : Option Async.RdAns :=
-  if s == "A" then some .all else if s == "P" then some .pending else (natArg s).map .n
+  if s == "A" then some .all else if s == "P" then some .pending else if s == "E" then some .err else (natArg s).map .n
 def parseWr (s : String) : Option Async.WrAns :=
   if s == "A" then some .all else if s == "P" then some .pending else if s == "Z" then some .zero
   else if s == "E" then some .err else (natArg s).map .n
